@@ -2118,7 +2118,7 @@ def rule_msg(repo):
         m = repo.mod(rel)
         f = m.get_func(q)
         raises = [x for x in ast.walk(f) if isinstance(x, ast.Raise) and x.exc is not None and
-                  any('onces' in names_in(g.test) for g in guards_of(x))]
+                  (any('onces' in names_in(g.test) for g in guards_of(x) if g.kind == 'if' and g.polarity) or 'onces' in names_in(x.exc))]
         if len(raises) != 1:
             raise AnalysisError(f"{q}: update_once rejection not found")
         look = [c for c in ast.walk(raises[0]) if (isinstance(c, ast.Call) and norm(c.func).endswith('get_update_block_host_component')) or
